@@ -139,9 +139,15 @@ proofs/GeomSweeps.vos proofs/GeomSweeps.vok proofs/GeomSweeps.required_vos: proo
 proofs/HashFacts.vo proofs/HashFacts.glob proofs/HashFacts.v.beautified proofs/HashFacts.required_vo: proofs/HashFacts.v base/Bits.vo base/Types.vo base/BitBoard.vo geom/Geometry.vo model/Board.vo model/Fen.vo model/MoveGen.vo model/Apply.vo proofs/BitsFacts.vo proofs/BitBoardFacts.vo proofs/ZobristFacts.vo proofs/FenFacts.vo
 proofs/HashFacts.vio: proofs/HashFacts.v base/Bits.vio base/Types.vio base/BitBoard.vio geom/Geometry.vio model/Board.vio model/Fen.vio model/MoveGen.vio model/Apply.vio proofs/BitsFacts.vio proofs/BitBoardFacts.vio proofs/ZobristFacts.vio proofs/FenFacts.vio
 proofs/HashFacts.vos proofs/HashFacts.vok proofs/HashFacts.required_vos: proofs/HashFacts.v base/Bits.vos base/Types.vos base/BitBoard.vos geom/Geometry.vos model/Board.vos model/Fen.vos model/MoveGen.vos model/Apply.vos proofs/BitsFacts.vos proofs/BitBoardFacts.vos proofs/ZobristFacts.vos proofs/FenFacts.vos
+proofs/InvFacts.vo proofs/InvFacts.glob proofs/InvFacts.v.beautified proofs/InvFacts.required_vo: proofs/InvFacts.v base/Bits.vo base/Types.vo base/BitBoard.vo base/Sweep.vo geom/Geometry.vo model/Board.vo model/Fen.vo model/MoveGen.vo model/Apply.vo proofs/BitsFacts.vo proofs/BitBoardFacts.vo proofs/GeomSweeps.vo proofs/PawnFacts.vo proofs/FenFacts.vo spec/IterSpec.vo proofs/IterFacts.vo proofs/SiteFacts.vo proofs/CoreFacts.vo proofs/HashFacts.vo
+proofs/InvFacts.vio: proofs/InvFacts.v base/Bits.vio base/Types.vio base/BitBoard.vio base/Sweep.vio geom/Geometry.vio model/Board.vio model/Fen.vio model/MoveGen.vio model/Apply.vio proofs/BitsFacts.vio proofs/BitBoardFacts.vio proofs/GeomSweeps.vio proofs/PawnFacts.vio proofs/FenFacts.vio spec/IterSpec.vio proofs/IterFacts.vio proofs/SiteFacts.vio proofs/CoreFacts.vio proofs/HashFacts.vio
+proofs/InvFacts.vos proofs/InvFacts.vok proofs/InvFacts.required_vos: proofs/InvFacts.v base/Bits.vos base/Types.vos base/BitBoard.vos base/Sweep.vos geom/Geometry.vos model/Board.vos model/Fen.vos model/MoveGen.vos model/Apply.vos proofs/BitsFacts.vos proofs/BitBoardFacts.vos proofs/GeomSweeps.vos proofs/PawnFacts.vos proofs/FenFacts.vos spec/IterSpec.vos proofs/IterFacts.vos proofs/SiteFacts.vos proofs/CoreFacts.vos proofs/HashFacts.vos
 proofs/IterFacts.vo proofs/IterFacts.glob proofs/IterFacts.v.beautified proofs/IterFacts.required_vo: proofs/IterFacts.v spec/Rules.vo base/Bits.vo base/Types.vo base/BitBoard.vo geom/Geometry.vo model/Board.vo model/MoveGen.vo proofs/BitsFacts.vo proofs/BitBoardFacts.vo spec/IterSpec.vo
 proofs/IterFacts.vio: proofs/IterFacts.v spec/Rules.vio base/Bits.vio base/Types.vio base/BitBoard.vio geom/Geometry.vio model/Board.vio model/MoveGen.vio proofs/BitsFacts.vio proofs/BitBoardFacts.vio spec/IterSpec.vio
 proofs/IterFacts.vos proofs/IterFacts.vok proofs/IterFacts.required_vos: proofs/IterFacts.v spec/Rules.vos base/Bits.vos base/Types.vos base/BitBoard.vos geom/Geometry.vos model/Board.vos model/MoveGen.vos proofs/BitsFacts.vos proofs/BitBoardFacts.vos spec/IterSpec.vos
+proofs/LegalDefs.vo proofs/LegalDefs.glob proofs/LegalDefs.v.beautified proofs/LegalDefs.required_vo: proofs/LegalDefs.v base/Bits.vo base/Types.vo base/BitBoard.vo geom/Geometry.vo model/Board.vo model/MoveGen.vo model/Apply.vo spec/Rules.vo spec/IterSpec.vo proofs/HashFacts.vo proofs/InvFacts.vo
+proofs/LegalDefs.vio: proofs/LegalDefs.v base/Bits.vio base/Types.vio base/BitBoard.vio geom/Geometry.vio model/Board.vio model/MoveGen.vio model/Apply.vio spec/Rules.vio spec/IterSpec.vio proofs/HashFacts.vio proofs/InvFacts.vio
+proofs/LegalDefs.vos proofs/LegalDefs.vok proofs/LegalDefs.required_vos: proofs/LegalDefs.v base/Bits.vos base/Types.vos base/BitBoard.vos geom/Geometry.vos model/Board.vos model/MoveGen.vos model/Apply.vos spec/Rules.vos spec/IterSpec.vos proofs/HashFacts.vos proofs/InvFacts.vos
 proofs/MagicSweep.vo proofs/MagicSweep.glob proofs/MagicSweep.v.beautified proofs/MagicSweep.required_vo: proofs/MagicSweep.v base/Bits.vo base/Types.vo base/Tree.vo base/Sweep.vo geom/Geometry.vo geom/Lookup.vo geom/Magic.vo gen/T_rook_moves.vo gen/T_bishop_moves.vo
 proofs/MagicSweep.vio: proofs/MagicSweep.v base/Bits.vio base/Types.vio base/Tree.vio base/Sweep.vio geom/Geometry.vio geom/Lookup.vio geom/Magic.vio gen/T_rook_moves.vio gen/T_bishop_moves.vio
 proofs/MagicSweep.vos proofs/MagicSweep.vok proofs/MagicSweep.required_vos: proofs/MagicSweep.v base/Bits.vos base/Types.vos base/Tree.vos base/Sweep.vos geom/Geometry.vos geom/Lookup.vos geom/Magic.vos gen/T_rook_moves.vos gen/T_bishop_moves.vos
